@@ -39,10 +39,10 @@ def _loop_ran_proof(fi, name, use_node, nid):
         return None
     loop = fi.cfg.nodes[loops.pop()]
     it = fl.canon(loop.ast.iter, loop.id)
-    it = strip_wrappers(it)
+    it = strip_wrappers(it, slices=False)
     c = is_call(it, "enumerate")
     if c:
-        it = strip_wrappers(c[0][0])
+        it = strip_wrappers(c[0][0], slices=False)
     if not (it[0] == "sub" and it[2][0] == "slice" and it[2][2] is None and it[2][3] is None and it[2][1] is not None):
         return None
     P, S = it[1], it[2][1]
